@@ -33,6 +33,28 @@ func chanSync(addr uintptr) unsafe.Pointer {
 
 var chanSyncCells [256]uint64
 
+// adopt: what was put into the REAL channel before the simulation took over
+// (package init filling a free list or a semaphore) is moved into the model the
+// first time the channel is met inside the simulation. Inside the simulation
+// nothing is ever put into a real channel, so len(ch) > 0 means exactly that.
+//
+//go:norace
+func adopt[T any](pch unsafe.Pointer, id uintptr) {
+	ch := *(*chan T)(pch)
+	if id == 0 || len(ch) == 0 {
+		return
+	}
+	var items []any
+	for len(ch) > 0 {
+		select {
+		case v := <-ch:
+			items = append(items, v)
+		default:
+		}
+	}
+	Ask(ReqChanAdopt, OpChan, id, int64(cap(ch)), items)
+}
+
 //go:norace
 func ChanSend[T any](ch chan<- T, v T) {
 	id := uintptr(*(*unsafe.Pointer)(unsafe.Pointer(&ch)))
@@ -44,6 +66,7 @@ func ChanSend[T any](ch chan<- T, v T) {
 		Ask(ReqChanBlockForever, OpChan, 0, 0, nil)
 		return
 	}
+	adopt[T](unsafe.Pointer(&ch), id)
 	RaceReleaseMerge(chanSync(id))
 	n, _, _ := Ask(ReqSelect, OpChan, 0, 0, []selCase{{send: true, addr: id, cap: cap(ch), val: v}})
 	RaceAcquire(chanSync(id))
@@ -65,6 +88,7 @@ func ChanRecv2[T any](ch <-chan T) (T, bool) {
 		Ask(ReqChanBlockForever, OpChan, 0, 0, nil)
 		return zero, false
 	}
+	adopt[T](unsafe.Pointer(&ch), id)
 	RaceReleaseMerge(chanSync(id))
 	n, v, _ := Ask(ReqSelect, OpChan, 0, 0, []selCase{{addr: id, cap: cap(ch)}})
 	RaceAcquire(chanSync(id))
@@ -109,6 +133,7 @@ func ChanLen[T any](ch chan T) int {
 	if !InSim() {
 		return len(ch)
 	}
+	adopt[T](unsafe.Pointer(&ch), chanID(ch))
 	n, _, _ := Ask(ReqChanLen, OpChan, chanID(ch), 0, nil)
 	return int(n)
 }
@@ -117,11 +142,17 @@ func ChanLen[T any](ch chan T) int {
 //
 //go:norace
 func SelRecv[T any](ch <-chan T) SelCase {
+	if InSim() {
+		adopt[T](unsafe.Pointer(&ch), uintptr(*(*unsafe.Pointer)(unsafe.Pointer(&ch))))
+	}
 	return SelCase{selCase{addr: uintptr(*(*unsafe.Pointer)(unsafe.Pointer(&ch))), cap: cap(ch)}}
 }
 
 //go:norace
 func SelSend[T any](ch chan<- T, v T) SelCase {
+	if InSim() {
+		adopt[T](unsafe.Pointer(&ch), uintptr(*(*unsafe.Pointer)(unsafe.Pointer(&ch))))
+	}
 	return SelCase{selCase{send: true, addr: uintptr(*(*unsafe.Pointer)(unsafe.Pointer(&ch))), cap: cap(ch), val: v}}
 }
 
